@@ -404,6 +404,22 @@ def meshgen_suite(stats, tier=None, label="function:meshgen"):
                 numx = int(rng.integers(2, 8))
                 add("add_chordwise_panels", add_chordwise_panels(half, numx, cs), "AddChordwisePanels", [nx, hny, numx],
                     np.concatenate([[cs], half.ravel()]))
+                # unify_mesh: 1-4 sections, C0-continuous (cut from one mesh) or with gaps (jittered), with and without shift
+                from openaerostruct.geometry.geometry_unification import unify_mesh
+                nsec = int(rng.integers(1, 5))
+                full = np.array(generate_mesh(dict(num_x=nx, num_y=2 * nsec * 2 + 1, wing_type="rect", symmetry=False, span=span,
+                                                   root_chord=chord)), dtype=float)
+                full[:, :, 0] += 0.05 * full[:, :, 1]                      # a little sweep so that the leading edges differ
+                cuts = [0] + sorted(set(int(c) for c in rng.choice(np.arange(1, full.shape[1] - 1), size=nsec - 1, replace=False))) + [full.shape[1] - 1]
+                secs = [full[:, a:b + 1].copy() for a, b in zip(cuts[:-1], cuts[1:])]
+                continuous = bool(rng.integers(2))
+                if not continuous:
+                    for sm in secs[1:]:
+                        sm += rng.normal(size=3) * 0.1                    # detached sections: the shift option matters
+                shift = bool(rng.integers(2))
+                real_u = unify_mesh([dict(mesh=sm.copy()) for sm in secs], shift_uni_mesh=shift)
+                add("unify_mesh", real_u, "UnifyMesh", [nx, int(shift), len(secs)] + [sm.shape[1] for sm in secs],
+                    np.concatenate([sm.ravel() for sm in secs]), exact=not shift)
                 if k == 1:
                     stats.sample(dict(suite=label, num_x=nx, num_y=ny, symmetry=sym, span=span, chord=chord, span_cos_spacing=s, chord_cos_spacing=cs))
     return stats
